@@ -540,8 +540,11 @@ macro_rules! __destructuring__type_assert {
             $crate::macros::destructuring::assert_same_type(expected, $variable)
         }
     };
-    ((type $type:ty) $variable:ident) => {
+    ((type $type:path) $variable:ident) => {
         let _: $type = $variable;
+
+        // assert that `$type` is a struct, `{..}` patterns are an error for unions
+        let $type {..} = $variable;
     };
 }
 
